@@ -1,7 +1,11 @@
 (* Property C19 -- statements only; proofs live in Proofs/C19_*.v.
    validate : tables -> install -> heap -> settings -> heap * res settings is the by-reference model of
-   HandshakeSettings.validate() (Model/C19_Settings.v).  All theorems quantify over ALL domain tables T,
-   installation flags I, heaps h and objects s (lists of any length). *)
+   HandshakeSettings.validate() (Model/C19_Settings.v), synchronised with /repo after the repairs
+   851aa29 (filter a copy of cipherImplementations), 8cc633e (forbidden delegated-credential
+   algorithms rejected), c50a338 (ticketKeys must fit ticketCipher).  All theorems quantify over ALL
+   domain tables T, installation flags I, heaps h and objects s (lists of any length); the only
+   hypothesis on the object is well-formedness wf h s (it has its 22 list attributes and they are
+   allocated) and, for the domain theorems, `typed` (values have the documented Python type). *)
 From Coq Require Import ZArith List Bool String.
 From TV Require Import Base.Prelude Model.C19_Settings Spec.C19_Domain
                        Proofs.C19_Frame Proofs.C19_Examples Proofs.C19_Refuted
@@ -10,143 +14,129 @@ From TV Require Import Base.Prelude Model.C19_Settings Spec.C19_Domain
 Import ListNotations.
 Open Scope Z_scope.
 
-(* ================= 1. "never modifies it" ================================================== *)
-(* Full statement: every cell that existed before the call (in particular every list reachable from
-   the receiver) has the same content afterwards, whatever the outcome.  (The receiver's attribute
-   bindings cannot change in the model: validate never assigns to self.x - the harness checks that
-   on the implementation by comparing id() of every attribute.) *)
-Definition validate_preserves_receiver_statement : Prop :=
-  forall T I h s h' r, wf h s = true -> validate T I h s = (h', r) ->
+(* ================= 0. the hand model still has the shape of the source ========================= *)
+(* gen_* are regenerated from the ast of tlslite/handshakesettings.py on every run: the 41 assignments of
+   the three _copy_* methods (all `other.x = self.x`), the statement sequence of validate(), every
+   in-place list mutation site, every re-binding of an attribute of `other` to a new object outside the
+   copy phase (versions, macNames, cipherImplementations, cipherNames), the attributes set by __init__. *)
+Theorem model_skeleton_matches_source :
+  gen_copies = expected_copies /\ gen_validate_seq = expected_validate_seq /\
+  gen_mutation_sites = expected_mutation_sites /\ gen_rebinds = expected_rebinds /\
+  gen_init_attrs = expected_init_attrs.
+Proof. exact skeleton_ok. Qed.
+
+(* ================= 1. "never modifies it" ===================================================== *)
+(* FULL frame condition: whatever the outcome (result or exception), the heap only grows and every
+   cell that existed before the call -- in particular every list reachable from the receiver, and any
+   list the caller shares between several attributes -- has the same content afterwards.  The
+   receiver's attribute bindings cannot change in the model (validate never assigns to self.x; the
+   harness compares id() of every attribute on the implementation).
+   History: before /repo 851aa29 this statement was REFUTED (validate_preserves_receiver_refuted:
+   _sanity_check_implementations filtered the receiver's own cipherImplementations list in place through
+   the alias made by _copy_cipher_settings; only the other cells were provably unchanged). *)
+Theorem validate_preserves_receiver :
+  forall T I h s h' r, validate T I h s = (h', r) ->
+    (List.length h <= List.length h')%nat /\
     forall l, (l < List.length h)%nat -> hget h' l = hget h l.
-
-(* FALSE of the faithful model: _sanity_check_implementations filters the receiver's own
-   cipherImplementations list in place (other.cipherImplementations IS self.cipherImplementations). *)
-Theorem validate_preserves_receiver_refuted : ~ validate_preserves_receiver_statement.
-Proof. exact frame_refuted. Qed.
-
-(* What does hold: the heap only grows, every old cell other than the receiver's cipherImplementations
-   list is unchanged, and that one is either unchanged or filtered down to the available back-ends. *)
-Theorem validate_preserves_receiver_partial :
-  forall T I h s h' r, wf h s = true -> validate T I h s = (h', r) ->
-    ((List.length h <= List.length h')%nat /\
-     forall l, (l < List.length h)%nat -> l <> L s F_cipherImplementations -> hget h' l = hget h l) /\
-    (hget h' (L s F_cipherImplementations) = hget h (L s F_cipherImplementations) \/
-     hget h' (L s F_cipherImplementations) = filter (impl_available I) (hget h (L s F_cipherImplementations))).
 Proof. exact validate_frame. Qed.
 
-(* hence the full frame condition holds whenever the list names only available back-ends *)
-Theorem validate_preserves_receiver_when_available :
-  forall T I h s h' r, wf h s = true -> validate T I h s = (h', r) ->
-    forallb (impl_available I) (hget h (L s F_cipherImplementations)) = true ->
-    forall l, (l < List.length h)%nat -> hget h' l = hget h l.
-Proof. exact frame_when_available. Qed.
+(* read on the receiver: the contents of all its list attributes and its scalars are unchanged *)
+Theorem validate_preserves_receiver_view :
+  forall T I h s h' r, wf h s = true -> validate T I h s = (h', r) -> view h' s = view h s.
+Proof. exact validate_view_unchanged. Qed.
 
 Example frame_hypotheses_satisfiable :
-  wf ex_heap ex_settings = true /\ is_ok (snd (validate std_tables no_backends ex_heap ex_settings)) = true.
-Proof. vm_compute. split; reflexivity. Qed.
+  wf ex_heap ex_settings = true /\
+  is_ok (snd (validate std_tables no_backends ex_heap ex_settings)) = true /\
+  hget (fst (validate std_tables no_backends ex_heap ex_settings)) 3%nat = S ["openssl"; "pycrypto"; "python"]%string /\
+  match snd (validate std_tables no_backends ex_heap ex_settings) with
+  | Ok s' => G (fst (validate std_tables no_backends ex_heap ex_settings)) s' F_cipherImplementations = S ["python"]%string
+  | Err _ => False
+  end.
+Proof. exact frame_regression. Qed.
+
+(* the object that used to be excluded by the aliasing hypothesis: dc_sig_algs bound to the very list of
+   cipherImplementations -- validates, shared list untouched *)
+Example frame_aliased_object :
+  wf ex_heap ex_settings_alias = true /\
+  L ex_settings_alias F_dc_sig_algs = L ex_settings_alias F_cipherImplementations /\
+  is_ok (snd (validate std_tables no_backends ex_heap ex_settings_alias)) = true /\
+  hget (fst (validate std_tables no_backends ex_heap ex_settings_alias)) 3%nat = S ["openssl"; "pycrypto"; "python"]%string.
+Proof. exact alias_regression. Qed.
 
 (* ================= 2. "yields the same result when applied again to its own output" ========= *)
-(* Full statement: for every object that validates, validating the result succeeds and gives an object
+(* FULL: for every well-formed object that validates, validating the result succeeds and gives an object
    with the same observable contents (the second call allocates new lists again, so equality is on the
-   view = contents of every list attribute + every scalar, not on locations). *)
-Definition validate_idempotent_statement : Prop :=
+   view = contents of every list attribute + every scalar, not on locations).
+   History: before 851aa29 proved only under impl_unaliased (no other attribute bound to the list object
+   of cipherImplementations); the hypothesis is gone because validate() now writes only to cells it
+   allocated itself. *)
+Theorem validate_idempotent :
   forall T I h s h1 s1, wf h s = true -> validate T I h s = (h1, Ok s1) ->
     exists h2 s2, validate T I h1 s1 = (h2, Ok s2) /\ view h2 s2 = view h1 s1.
+Proof. exact validate_idempotent_heap. Qed.
 
-(* Proved part.  Missing for the full statement: objects in which ANOTHER attribute is bound to the very
-   list object of cipherImplementations (then the in-place filtering of finding F2 also shrinks that
-   attribute between the two calls; for arbitrary tables T the second call can then fail). *)
-Theorem validate_idempotent_partial :
-  forall T I h s h1 s1, wf h s = true -> impl_unaliased s -> validate T I h s = (h1, Ok s1) ->
-    exists h2 s2, validate T I h1 s1 = (h2, Ok s2) /\ view h2 s2 = view h1 s1.
-Proof. exact validate_idempotent_unaliased. Qed.
-
-(* the same on contents only: the pure function cvalidate (validate without the heap, proved to be what
-   the by-reference model computes on unaliased objects: Proofs.C19_Pure.validate_refines) is idempotent
-   for every 22-attribute content vector *)
-Theorem validate_contents_idempotent :
-  forall T I v c v', List.length v = NF -> cvalidate T I v c = Ok v' -> cvalidate T I v' c = Ok v'.
-Proof. exact cvalidate_idem. Qed.
-
-Example idempotent_hypotheses_satisfiable :
-  wf ex_heap ex_settings = true /\ impl_unaliased (with_scalars ex_settings ex_scalars_tls11) /\
-  is_ok (snd (validate std_tables no_backends ex_heap (with_scalars ex_settings ex_scalars_tls11))) = true.
-Proof.
-  split; [vm_compute; reflexivity|]. split; [apply unaliased_b_sound; vm_compute; reflexivity|vm_compute; reflexivity].
-Qed.
-
-(* ================= 3. "contains only algorithms the running installation supports" ============ *)
-(* supported_only T I (Spec/C19_Domain.v): every name of the result is in its table; no back-end the
-   installation lacks (I: M2Crypto, pycrypto), no 3DES without an implementation, no SHA-2/AEAD MAC when
-   maxVersion < TLS 1.2, no TLS 1.3 entry in `versions` when maxVersion < TLS 1.3.  Parametric in the
-   tables (brotli/zstd/ML-KEM/ML-DSA availability only changes the generated tables) and in I. *)
-Definition validated_supported_only_statement : Prop :=
-  forall T I h s h' s', wf h s = true -> validate T I h s = (h', Ok s') ->
-    supported_only T I (view h' s') = true.
-
-(* proved for objects where no other attribute shares the cipherImplementations list (same gap as 2.) *)
-Theorem validated_supported_only_partial :
-  forall T I h s h' s', wf h s = true -> impl_unaliased s -> validate T I h s = (h', Ok s') ->
-    supported_only T I (view h' s') = true.
-Proof. exact validate_supported_unaliased. Qed.
-
-Theorem validated_contents_supported_only :
-  forall T I v c v', List.length v = NF -> cvalidate T I v c = Ok v' -> supported_only T I (v', c) = true.
-Proof. exact cvalidate_supported. Qed.
-
-(* the by-reference model computes cvalidate (same outcome, same error class, same contents) *)
+(* the by-reference model computes the pure function cvalidate on contents: same outcome, same
+   exception class, same contents -- for every well-formed object, aliased or not *)
 Theorem validate_refines_contents :
-  forall T I h s, wf h s = true -> impl_unaliased s ->
+  forall T I h s, wf h s = true ->
     match validate T I h s with
     | (h', Ok s') => cvalidate T I (lists h s) (sc s) = Ok (lists h' s') /\ sc s' = sc s
     | (h', Err e) => cvalidate T I (lists h s) (sc s) = Err e
     end.
 Proof. exact validate_refines_contents_lemma. Qed.
 
+Theorem validate_contents_idempotent :
+  forall T I v c v', List.length v = NF -> cvalidate T I v c = Ok v' -> cvalidate T I v' c = Ok v'.
+Proof. exact cvalidate_idem. Qed.
+
+Example idempotent_hypotheses_satisfiable :
+  wf ex_heap (with_scalars ex_settings ex_scalars_tls11) = true /\
+  is_ok (snd (validate std_tables no_backends ex_heap (with_scalars ex_settings ex_scalars_tls11))) = true.
+Proof. exact tls11_validates. Qed.
+
+(* ================= 3. "contains only algorithms the running installation supports" ============ *)
+(* supported_only T I (Spec/C19_Domain.v): every name of the result is in its table; no back-end the
+   installation lacks (I: M2Crypto, pycrypto), no 3DES without an implementation, no SHA-2/AEAD MAC when
+   maxVersion < TLS 1.2, no TLS 1.3 entry in `versions` when maxVersion < TLS 1.3.  Parametric in the
+   tables (brotli/zstd/ML-KEM/ML-DSA availability only changes the generated tables) and in I.  FULL. *)
+Theorem validated_supported_only :
+  forall T I h s h' s', wf h s = true -> validate T I h s = (h', Ok s') ->
+    supported_only T I (view h' s') = true.
+Proof. exact validate_supported_heap. Qed.
+
+Theorem validated_contents_supported_only :
+  forall T I v c v', List.length v = NF -> cvalidate T I v c = Ok v' -> supported_only T I (v', c) = true.
+Proof. exact cvalidate_supported. Qed.
+
 (* ================= 4. "rejects with ValueError every value outside the documented domains" ===== *)
-(* dom T d (Spec/C19_Domain.v) is the documented domain of dimension d, written from the docstrings,
-   the module tables and the ValueError texts; typed says every value has the documented Python type
-   (the configurations the property quantifies over).  Full statement, per dimension: *)
-Definition rejects_outside_domain_statement : Prop :=
+(* dom T d (Spec/C19_Domain.v) is the documented domain of dimension d (32 dimensions), written from the
+   docstrings, the module tables and the ValueError texts; typed says every value has the documented
+   Python type (the configurations the property quantifies over).  FULL, per dimension, all 32.
+   History: before 8cc633e / c50a338 this was REFUTED at D_dc_sig_algs (dc_sig_algs=[(8,4)] accepted: a
+   list was tested for membership in a list of tuples) and at D_ticketKeys (16-byte key with
+   chacha20-poly1305 accepted) and proved for the other 30 dimensions under impl_unaliased. *)
+Theorem rejects_outside_domain :
   forall T I h s d, wf h s = true -> typed (view h s) = true -> dom T d (view h s) = false ->
     snd (validate T I h s) = Err ValueError.
+Proof. exact validate_rejects_heap. Qed.
 
-(* FALSE: dc_sig_algs = [rsa_pss_rsae_sha256] is accepted (the membership test compares the list with
-   each tuple); so is a 16-byte ticket key with ticketCipher = chacha20-poly1305. *)
-Theorem rejects_outside_domain_refuted : ~ rejects_outside_domain_statement.
-Proof. exact rejects_refuted. Qed.
-
-Example rejects_refuted_witness_dc_sig_algs :
+Example rejects_former_witness_dc_sig_algs :
   wf ex_heap_dc ex_settings = true /\ typed (view ex_heap_dc ex_settings) = true /\
   dom std_tables D_dc_sig_algs (view ex_heap_dc ex_settings) = false /\
-  is_ok (snd (validate std_tables all_backends ex_heap_dc ex_settings)) = true.
-Proof. exact dc_witness. Qed.
+  snd (validate std_tables all_backends ex_heap_dc ex_settings) = Err ValueError.
+Proof. exact dc_regression. Qed.
 
-Example rejects_refuted_witness_ticketKeys :
+Example rejects_former_witness_ticketKeys :
   wf ex_heap_tk ex_settings_tk = true /\ typed (view ex_heap_tk ex_settings_tk) = true /\
   dom std_tables D_ticketKeys (view ex_heap_tk ex_settings_tk) = false /\
-  is_ok (snd (validate std_tables all_backends ex_heap_tk ex_settings_tk)) = true.
-Proof. exact ticket_witness. Qed.
+  snd (validate std_tables all_backends ex_heap_tk ex_settings_tk) = Err ValueError.
+Proof. exact ticket_regression. Qed.
 
-(* Proved: every other dimension (30 of 32; lax_dims = [D_dc_sig_algs; D_ticketKeys], and for ticketKeys
-   the weaker "16 or 32 bytes" is enforced, see accepted_in_enforced_domain) is rejected with ValueError.
-   Aliasing hypothesis as in 2. *)
-Theorem rejects_outside_domain_partial :
-  forall T I h s d, wf h s = true -> impl_unaliased s -> typed (view h s) = true ->
-    is_lax d = false -> dom T d (view h s) = false ->
-    snd (validate T I h s) = Err ValueError.
-Proof. exact validate_rejects_unaliased. Qed.
-
-(* on contents, without any aliasing hypothesis: whatever is accepted satisfies every enforced domain,
-   and a typed input never produces another exception class *)
-Theorem accepted_implies_enforced_domains :
-  forall T I v c v', List.length v = NF -> cvalidate T I v c = Ok v' ->
-    forallb (fun d => dom_enforced T d (v, c)) all_dims = true.
-Proof. exact accepted_in_enforced_domain. Qed.
-
+(* a typed input never produces another exception class *)
 Theorem typed_inputs_raise_only_ValueError :
-  forall T I v c e, List.length v = NF -> typed (v, c) = true -> cvalidate T I v c = Err e -> e = ValueError.
-Proof. exact typed_errors. Qed.
+  forall T I h s h' e, wf h s = true -> typed (view h s) = true -> validate T I h s = (h', Err e) -> e = ValueError.
+Proof. exact validate_typed_errors_heap. Qed.
 
 (* the hypothesis `typed` is needed: an int in pskConfigs gives TypeError, not ValueError (recorded by
    the harness for every attribute in the stream wrong-type-outcomes) *)
@@ -156,32 +146,21 @@ Example wrong_kind_other_exception :
 Proof. exact wrong_kind_witness. Qed.
 
 (* ================= 4b. accepts inside the domains ============================================ *)
-Definition accepts_inside_domain_statement : Prop :=
+(* FULL: typed, inside all 32 documented domains, and something of what it names is supported by the
+   installation => accepted. *)
+Theorem accepts_inside_domain :
   forall T I h s, wf h s = true -> typed (view h s) = true -> in_domain T (view h s) = true ->
     something_supported I (view h s) = true -> is_ok (snd (validate T I h s)) = true.
+Proof. exact validate_accepts_heap. Qed.
 
-Theorem accepts_inside_domain_partial :
-  forall T I h s, wf h s = true -> impl_unaliased s -> typed (view h s) = true ->
-    in_domain T (view h s) = true -> something_supported I (view h s) = true ->
-    is_ok (snd (validate T I h s)) = true.
-Proof. exact validate_accepts_unaliased. Qed.
-
-Theorem accepts_inside_domain_contents :
-  forall T I v c, List.length v = NF -> typed (v, c) = true -> in_domain T (v, c) = true ->
-    something_supported I (v, c) = true -> exists v', cvalidate T I v c = Ok v'.
-Proof. exact accepts_inside. Qed.
+(* together: validate() decides exactly the documented domains *)
+Theorem validate_accepts_exactly_the_documented_domains :
+  forall T I h s, wf h s = true -> typed (view h s) = true -> something_supported I (view h s) = true ->
+    is_ok (snd (validate T I h s)) = in_domain T (view h s).
+Proof. exact validate_accepts_iff. Qed.
 
 Example domain_hypotheses_satisfiable :
   wf ex_heap ex_settings = true /\ typed (view ex_heap ex_settings) = true /\
   in_domain std_tables (view ex_heap ex_settings) = true /\
   something_supported no_backends (view ex_heap ex_settings) = true.
 Proof. exact default_in_domain. Qed.
-
-(* ================= 0. the hand model still has the shape of the source ========================= *)
-(* gen_* are regenerated from the ast of tlslite/handshakesettings.py on every run: the 41 assignments of
-   the three _copy_* methods (all `other.x = self.x`), the statement sequence of validate(), every
-   in-place list mutation site, the attributes set by __init__. *)
-Theorem model_skeleton_matches_source :
-  gen_copies = expected_copies /\ gen_validate_seq = expected_validate_seq /\
-  gen_mutation_sites = expected_mutation_sites /\ gen_init_attrs = expected_init_attrs.
-Proof. exact skeleton_ok. Qed.
